@@ -274,10 +274,9 @@ class LockAdapter(Lock):
 
 
 class Condition:
-    __slots__ = "__weakref__", "_lock", "_owner_task", "_waiters"
+    __slots__ = "__weakref__", "_lock", "_waiters"
 
     def __init__(self, lock: Lock | None = None):
-        self._owner_task: TaskInfo | None = None
         self._lock = lock or Lock()
         self._waiters: deque[Event] = deque()
 
@@ -293,13 +292,14 @@ class Condition:
         self.release()
 
     def _check_acquired(self) -> None:
-        if self._owner_task != get_current_task():
+        # Ask the lock itself: it may be shared with other conditions or be acquired
+        # and released directly, so a private copy of the owner would go stale
+        if self._lock.statistics().owner != get_current_task():
             raise RuntimeError("The current task is not holding the underlying lock")
 
     async def acquire(self) -> None:
         """Acquire the underlying lock."""
         await self._lock.acquire()
-        self._owner_task = get_current_task()
 
     def acquire_nowait(self) -> None:
         """
@@ -309,12 +309,10 @@ class Condition:
 
         """
         self._lock.acquire_nowait()
-        self._owner_task = get_current_task()
 
     def release(self) -> None:
         """Release the underlying lock."""
         self._lock.release()
-        self._owner_task = None
 
     def locked(self) -> bool:
         """Return True if the lock is set."""
